@@ -31,10 +31,6 @@ Fixpoint log_eqb (a b : list event) : bool :=
   end.
 Definition subset (a b : list N) : bool := forallb (fun x => existsb (N.eqb x) b) a.
 
-(* the Spec applied to an observed run *)
-Definition spec_ok (c : cls) (log : list event) (nerr : N) : bool :=
-  balancedb log && nestedb log && orderedb log && stopsb log && reportedb log nerr && outcomesb c log.
-
 Definition check (cs : c17case) : N :=
   match cs with
   | Case17 c exts log nerr keys =>
